@@ -55,6 +55,8 @@ def make_jobs(ctx):
     j.static_fn = seqcst_fact
     jobs.append(j)
     jobs += g_probes(ctx)
+    from ..eexpr import memop_jobs
+    jobs += memop_jobs(ctx, (2, 3))      # every atomic load / store opcode -> its runtime function, result type and natural alignment, at every stack height
     return jobs
 
 
